@@ -186,8 +186,19 @@ def r5(ctx):
     c01.r3(sub)
 
 
+def r6(ctx):
+    """R6 CHECK-INFO-FRESH (= C03.R2/R3): "the side that just moved is not in check" holds along a history only if the
+    generator is told about every check: checkers / pinned are recomputed, completely, in every Board -- the start position
+    built from text or a builder included (a lost knight check there lets the generator leave the king attacked)."""
+    from . import c03
+    sub = Sub(ctx, {'C03.R2': 'C05.R6', 'C03.R3': 'C05.R6'})
+    rec = c03.r2(sub)
+    c03.r3(sub, rec)
+
+
 def run(ctx):
     r1(ctx)
     r2(ctx)
     r34(ctx)
     r5(ctx)
+    r6(ctx)
